@@ -215,4 +215,39 @@ def Allowed (r : Rules) (m : Markup) : Prop := allowed r m = true
 /-- the text contains only white-listed markup -/
 def OnlyWhitelisted (r : Rules) (x : Bytes) : Prop := ∀ m ∈ lenientMarkup x, Allowed r m
 
+/-! ### well-formed UTF-8 (RFC 3629, section 4), independent of the library's validator
+
+```
+UTF8-1 = %x00-7F
+UTF8-2 = %xC2-DF UTF8-tail
+UTF8-3 = %xE0 %xA0-BF UTF8-tail / %xE1-EC 2( UTF8-tail ) / %xED %x80-9F UTF8-tail / %xEE-EF 2( UTF8-tail )
+UTF8-4 = %xF0 %x90-BF 2( UTF8-tail ) / %xF1-F3 3( UTF8-tail ) / %xF4 %x80-8F 2( UTF8-tail )
+```
+Used by the judge: whatever `validate` accepts under `encoding("UTF-8")`, and whatever the filter returns, must
+satisfy this (the library's validator is stricter: it also rejects control characters). -/
+
+def tail (c : UInt8) : Bool := 0x80 ≤ c && c ≤ 0xBF
+
+def utf8WellFormed : Bytes → Bool
+  | [] => true
+  | a :: rest =>
+    if a ≤ 0x7F then utf8WellFormed rest
+    else match rest with
+      | b :: rest1 =>
+        if 0xC2 ≤ a && a ≤ 0xDF then tail b && utf8WellFormed rest1
+        else match rest1 with
+          | c :: rest2 =>
+            if a = 0xE0 then 0xA0 ≤ b && b ≤ 0xBF && tail c && utf8WellFormed rest2
+            else if (0xE1 ≤ a && a ≤ 0xEC) || a = 0xEE || a = 0xEF then tail b && tail c && utf8WellFormed rest2
+            else if a = 0xED then 0x80 ≤ b && b ≤ 0x9F && tail c && utf8WellFormed rest2
+            else match rest2 with
+              | d :: rest3 =>
+                if a = 0xF0 then 0x90 ≤ b && b ≤ 0xBF && tail c && tail d && utf8WellFormed rest3
+                else if 0xF1 ≤ a && a ≤ 0xF3 then tail b && tail c && tail d && utf8WellFormed rest3
+                else if a = 0xF4 then 0x80 ≤ b && b ≤ 0x8F && tail c && tail d && utf8WellFormed rest3
+                else false
+              | [] => false
+          | [] => false
+      | [] => false
+
 end Cppcms.C04.Spec
